@@ -352,7 +352,9 @@ func rulesC01(c *Ctx) {
 
 	c.Rule("R-C01-8", "a transport's producer goroutine cannot die silently: its exit always reaches the session's reader (close or error), otherwise pending calls stay blocked (streamable client: R-C09-3)", func() { ruleC01ProducerExit(c) })
 	c.Rule("R-C01-9", "streamable client: a call whose response stream breaks is completed by a synthetic error or by failing the connection, never left pending (shared with R-C09-3)", func() { ruleStreamNeverSilent(c) })
-	c.Import("R-C01-13", "a response is matched to its call whatever spelling of the number the peer used for the id: decoded ids are strings or int64s only", "C19", "R-C19-1", func(k string) bool { return strings.HasPrefix(k, "ID-representation") || strings.HasPrefix(k, "ID literals") })
+	c.Import("R-C01-13", "a response is matched to its call whatever spelling of the number the peer used for the id: decoded ids are strings or int64s only", "C19", "R-C19-1", func(k string) bool {
+		return strings.HasPrefix(k, "ID-representation") || strings.HasPrefix(k, "ID literals")
+	})
 
 	c.Rule("R-C01-14", "transport wrappers are transparent for errors: what LoggingTransport's connection returns from Read, Write and Close is the delegate's own error (so jsonrpc2 still recognises ErrRejected, io.EOF and context errors through it)", func() {
 		n := 0
